@@ -129,7 +129,10 @@ pub fn run_check(spec: CheckSpec, tier: &str, emit_findings: Option<&str>) -> i3
     let handle_viol = |job: &Job, v: Viol, known_matched: &mut u64, new_viols: &mut Vec<(Job, Viol)>, known_lines: &mut Vec<String>, emitted: &mut Vec<String>, known_by_kind: &mut BTreeMap<String, u64>| {
         let key = FindingKey { property: spec.id.to_string(), program: job.program.id(), kind: v.kind.clone(), detail: v.detail.clone() };
         if emit_findings.is_some() {
-            emitted.push(finding_line(spec.id, &job.program, &v, "TBD"));
+            // `attribution`: computed by the check (e.g. C02: the outcome is also absent from the
+            // reference restricted to loom's RMW rule); tools/mkfindings.py turns it into the cause
+            let attr = v.witness.get("attribution").and_then(|a| a.as_str()).map(|a| format!("TBD:{}", a)).unwrap_or_else(|| "TBD".to_string());
+            emitted.push(finding_line(spec.id, &job.program, &v, &attr));
         }
         if findings.keys.contains_key(&key) {
             *known_matched += 1;
